@@ -20,7 +20,10 @@ Colliding == {[k |-> kd, s |-> S] : kd \in {"SetExtension", "Conjunction", "Inte
 LongImages == {[k |-> kd, i |-> i, q |-> q] : kd \in ImgKinds, i \in 0..5,
                q \in {<<W("a"), W("b"), W("c")>>, <<W("a"), W("b"), W("c"), IV("x")>>, <<W("a"), W("b"), W("c"), IV("x"), W("e")>>}}
               \cap {v \in [k : ImgKinds, i : 0..5, q : {<<W("a"), W("b"), W("c")>>, <<W("a"), W("b"), W("c"), IV("x")>>, <<W("a"), W("b"), W("c"), IV("x"), W("e")>>}] : v.i <= Len(v.q)}
-TermCases == U1 \cup AtomsU0 \cup ImgWithLatePH \cup Colliding \cup LongImages \cup (IF TIER = "thorough" THEN U2rSet(0) ELSE {RepOf(kd) : kd \in CompoundKinds \cup StatementKinds})
+DupImages == {[k |-> kd, i |-> i, q |-> q] : kd \in ImgKinds, i \in 0..2,
+              q \in {<<W("a"), W("a")>>, <<W("a"), W("a"), W("b")>>, <<W("b"), W("a"), W("a")>>, <<W("a"), W("a"), W("a")>>}}
+             \cup {[k |-> kd, q |-> <<W("a"), W("a"), W("b"), W("b")>>] : kd \in SeqKinds}
+TermCases == DupImages \cup U1 \cup AtomsU0 \cup ImgWithLatePH \cup Colliding \cup LongImages \cup (IF TIER = "thorough" THEN U2rSet(0) ELSE PairCoverSet(0) \cup {RepOf(kd) : kd \in CompoundKinds \cup StatementKinds})
 
 Init == \/ /\ mode = "iter" /\ \E n \in 0..MAXN : \E i \in 0..(n + 2) : x = [n |-> n, i |-> i] /\ it = IterInit(Raw(n), i)
            /\ outs = <<>>
